@@ -639,7 +639,7 @@ class BodyGen:
                 out.append(('awaitsub', name, args, res))
                 if res is not None and self.env.wsig:
                     k, w = sub['_ret']
-                    tg = [t for t in self.env.wsig if t.kind == k and t.w >= w]
+                    tg = [t for t in self.env.wsig if t.kind == k and (t.w or 0) >= (w or 0)]
                     if tg:
                         # the returned value must be consumed in the state in which it is produced
                         out.append(('sig', r.choice(tg).src, res))
@@ -752,6 +752,23 @@ def base_objects(rnd, n_bits=3, data=True, with_arr=True, n_outs=4):
     return inputs, outs
 
 
+def record_objects(rnd, outs):
+    """optionally one std.Signal / std.NoresetSignal of a record type: its fields are separate (anonymous) signals, observed through
+    tap outputs driven by a concurrent context.  returns (recs, field objects, tap statements); appends the tap ports to outs"""
+    if rnd.random() >= 0.3:
+        return [], [], []
+    fields = [('f0', 'u', 3, rnd.randrange(8)), ('f1', 'bv', 4, rnd.randrange(16))]
+    if rnd.random() < 0.5:
+        fields.append(('f2', 'bit', None, rnd.randrange(2)))
+    recs = [('r0', rnd.random() < 0.5, fields)]
+    ro = [Obj(f"r0.{fn}", k, w, 'r0', 'sig') for fn, k, w, d in fields]
+    taps = []
+    for fn, k, w, d in fields:
+        outs.append((f"tap_{fn}", k, w, None))
+        taps.append(('sig', f"self.tap_{fn}", f"r0.{fn}"))
+    return recs, ro, taps
+
+
 def written_names(body, subs=(), helpers=()):
     """root names written by <<= / ^= / @= anywhere (for the model's reset and push bookkeeping)"""
     names = {'sig': set(), 'push': set(), 'var': set()}
@@ -796,6 +813,7 @@ def gen_seq_design(rnd, size=8, reset=None, step_cond=False, with_conc=True):
     if rnd.random() < 0.4:
         vars_.append(('vb', 'bool', None, rnd.randrange(2)))
         bo = [Obj('vb', 'bool', None, 'vb', 'var')]
+    recs, ro, taps = record_objects(rnd, outs)
     # partition the outputs between the clocked and the concurrent context
     n_conc = 1 if with_conc else 0
     conc_outs = oo[len(oo) - n_conc:] if n_conc else []
@@ -806,8 +824,8 @@ def gen_seq_design(rnd, size=8, reset=None, step_cond=False, with_conc=True):
         outs = [tuple(o) + (True,) if o[0] == push_outs[0].name else o for o in outs]
     plain_outs = [o for o in seq_outs if o not in push_outs]
     env = Env()
-    env.read = ins + oo + so + vo + bo
-    env.wsig = plain_outs + so
+    env.read = ins + oo + so + vo + bo + ro
+    env.wsig = plain_outs + so + ro
     env.wpush = push_outs
     env.wvar = vo
     env.wbool = bo
@@ -838,7 +856,10 @@ def gen_seq_design(rnd, size=8, reset=None, step_cond=False, with_conc=True):
         for t in conc_outs:
             cbody.append(('sig', t.src, cbg.eg.expr(t.kind, t.w, 2)))
         ctxs.append({'kind': 'conc', 'name': 'logic', 'body': cbody, 'helpers': [], 'pushed': [], 'driven': [t.name for t in conc_outs]})
-    spec = {'inputs': inputs, 'outs': outs, 'sigs': sigs, 'vars': vars_, 'arrs': arrs, 'ctxs': ctxs}
+    if taps:
+        ctxs.append({'kind': 'conc', 'name': 'taps', 'body': taps, 'helpers': [], 'pushed': [], 'driven': [t[1].split('.')[1] for t in taps]})
+        bg.features.add('record-signal' + ('-noreset' if recs[0][1] else ''))
+    spec = {'inputs': inputs, 'outs': outs, 'sigs': sigs, 'vars': vars_, 'arrs': arrs, 'recs': recs, 'ctxs': ctxs}
     return spec, sorted(bg.features)
 
 
@@ -854,9 +875,10 @@ def gen_coro_design(rnd, size=8, reset=None, depth=3, step_cond=False, subs=True
     oo = [Obj(f"self.{o[0]}", o[1], o[2], o[0], 'out') for o in outs if o[0] != 'mk']
     so = [Obj(o[0], o[1], o[2], o[0], 'sig') for o in sigs]
     vo = [Obj(o[0], o[1], o[2], o[0], 'var') for o in vars_ if o[0] != 'acc']
+    recs, ro, taps = record_objects(rnd, outs)
     env = Env()
-    env.read = ins + oo + so + vo
-    env.wsig = oo + so
+    env.read = ins + oo + so + vo + ro
+    env.wsig = oo + so + ro
     env.wvar = vo
     bg = BodyGen(rnd, env, coro=True, allow={'subs': subs})
     bg.call_helpers = []
@@ -871,7 +893,11 @@ def gen_coro_design(rnd, size=8, reset=None, depth=3, step_cond=False, subs=True
         ctx['reset'] = reset
     if step_cond:
         ctx['step_cond'] = rnd.choice(['self.a', 'self.b'])
-    spec = {'inputs': inputs, 'outs': outs, 'sigs': sigs, 'vars': vars_, 'arrs': [], 'ctxs': [ctx]}
+    ctxs = [ctx]
+    if taps:
+        ctxs.append({'kind': 'conc', 'name': 'taps', 'body': taps, 'helpers': [], 'pushed': [], 'driven': [t[1].split('.')[1] for t in taps]})
+        bg.features.add('record-signal' + ('-noreset' if recs[0][1] else ''))
+    spec = {'inputs': inputs, 'outs': outs, 'sigs': sigs, 'vars': vars_, 'arrs': [], 'recs': recs, 'ctxs': ctxs}
     return spec, sorted(bg.features)
 
 
